@@ -16,6 +16,7 @@ type sweepSpec struct {
 	Mixed     bool // stratum C
 	FullHdr   int  // full header product for programs with <= FullHdr tokens in total
 	Flags     bool // entries may contain inline flag groups
+	HdrOnly   bool // stratum H: programs whose body assembles to nothing (prefix / suffix lines only, empty blocks)
 }
 
 type header struct{ Flags, Prefix, Suffix string }
@@ -94,6 +95,31 @@ func (s sweepSpec) programs(shard, n int, visit func(stratum string, p Prog)) (t
 			}
 		}
 	}
+	if s.HdrOnly {
+		bodies := [][][]string{nil, {{"##!> cmdline unix"}, {"##!<"}}, {{"##!> assemble"}, {"##!<"}}, {{"##! comment"}, {""}}}
+		for _, e := range one {
+			x := strings.Join(e, "")
+			bs, fs := bodies, []string{"", "is"}
+			if len(e) == 2 {
+				bs, fs = bodies[:2], fs[:1]
+			} else if len(e) > 2 {
+				bs, fs = bodies[:1], fs[:1]
+			}
+			for _, b := range bs {
+				for _, f := range fs {
+					if f != "" && !isASCIIProg([][]string{e}) {
+						continue
+					}
+					for _, h := range []header{{f, x, ""}, {f, "", x}, {f, x, x}} {
+						if idx%n == shard {
+							visit("H", Prog{Flags: h.Flags, Prefix: h.Prefix, Suffix: h.Suffix, Lines: b})
+						}
+						idx++
+					}
+				}
+			}
+		}
+	}
 	if s.StructLen > 0 {
 		enumSeq(len(structLines), s.StructLen, func(_ int, seq []int) {
 			ls := make([]string, len(seq))
@@ -149,6 +175,18 @@ func shrinkProg(p Prog, valid func(Prog) bool, fails func(Prog) bool) Prog {
 			p = q
 			changed = true
 			return true
+		}
+		// a body without entries: try the prefix / suffix text as the only entry instead
+		if !hasEntry(p.Lines) {
+			for _, t := range []string{p.Prefix, p.Suffix, p.Prefix + p.Suffix, strings.TrimSpace(p.Prefix) + strings.TrimSpace(p.Suffix)} {
+				if t != "" {
+					q := p.clone()
+					q.Prefix, q.Suffix, q.Lines = "", "", [][]string{tokenise(t)}
+					if try(q) {
+						break
+					}
+				}
+			}
 		}
 		// header
 		if p.Flags != "" {
@@ -262,6 +300,31 @@ func shrinkProg(p Prog, valid func(Prog) bool, fails func(Prog) bool) Prog {
 			return p
 		}
 	}
+}
+
+func hasEntry(lines [][]string) bool {
+	for _, l := range lines {
+		if s := strings.Join(l, ""); s != "" && !strings.HasPrefix(s, "##!") {
+			return true
+		}
+	}
+	return false
+}
+
+// tokenise splits text into tokens of the (largest) entry alphabet, longest match first.
+func tokenise(t string) []string {
+	var out []string
+	for len(t) > 0 {
+		best := t[:1]
+		for _, tok := range c02Tokens {
+			if len(tok) > len(best) && strings.HasPrefix(t, tok) {
+				best = tok
+			}
+		}
+		out = append(out, best)
+		t = t[len(best):]
+	}
+	return out
 }
 
 // shrinkAllowFlags: set by checks whose domain admits inline flag groups (C02)
